@@ -1,6 +1,8 @@
 (* EquiUnique.v — C16: the determinant gcd of an equimodular matrix does not depend on the chosen column basis
-   (equimodular_unique), constructed instances M = L X (equimodular_construct), and determinant bookkeeping for a square L
-   built from a diagonal matrix by elementary row operations (minors_gcd_square, det_apply_ops).
+   (equimodular_unique), constructed instances M = L X (equimodular_construct), determinant bookkeeping for a square L
+   built from a diagonal matrix by elementary row operations (minors_gcd_square, det_apply_ops), and for an m x r matrix L
+   (r <= m) built from [diag d; 0] by elementary row operations: the gcd of the r x r minors is invariant under a row
+   operation (minors_gcd_apply_op) and is |prod d| for [diag d; 0] (minors_gcd_stack_diag, minors_gcd_cert_L).
    All main statements are phrased with plain nat / Z / list and "= true". *)
 From Coq Require Import ZArith List.
 From mathcomp Require Import all_ssreflect all_fingroup all_algebra.
@@ -210,7 +212,7 @@ Lemma abs_sign (b : bool) (x : Z) : Z.abs ((-1) ^+ b * x) = Z.abs x.
 Proof. by case: b; rewrite ?expr1 ?expr0 ?mulN1r ?mul1r //; lia. Qed.
 
 Lemma apply_op_inv m (L : mat) (o : rowop) : wf_mat m m L = true ->
-  wf_mat m m (apply_op m L o) = true /\ Z.abs (det m (apply_op m L o)) = Z.abs (det m L).
+  wf_mat m m (apply_op m m L o) = true /\ Z.abs (det m (apply_op m m L o)) = Z.abs (det m L).
 Proof.
 move=> wfL; case: o => [i j c|i j|i] /=.
 - case: ifP => [/andP [/andP []]|_] //.
@@ -255,8 +257,8 @@ move=> wfL; case: o => [i j c|i j|i] /=.
 Qed.
 
 Lemma apply_ops_inv m (ops : list rowop) (L : mat) : wf_mat m m L = true ->
-  wf_mat m m (fold_left (apply_op m) ops L) = true /\
-  Z.abs (det m (fold_left (apply_op m) ops L)) = Z.abs (det m L).
+  wf_mat m m (fold_left (apply_op m m) ops L) = true /\
+  Z.abs (det m (fold_left (apply_op m m) ops L)) = Z.abs (det m L).
 Proof.
 elim: ops L => [|o ops IH] L wfL //=.
 have [wf1 e1] := apply_op_inv o wfL.
@@ -275,12 +277,235 @@ Qed.
 
 Theorem det_apply_ops : forall (d : list Z) (ops : list rowop),
   let m := length d in
-  wf_mat m m (fold_left (apply_op m) ops (diag_mat d)) = true /\
-  Z.abs (det m (fold_left (apply_op m) ops (diag_mat d))) = Z.abs (fold_right Z.mul 1%Z d).
+  wf_mat m m (fold_left (apply_op m m) ops (diag_mat d)) = true /\
+  Z.abs (det m (fold_left (apply_op m m) ops (diag_mat d))) = Z.abs (fold_right Z.mul 1%Z d).
 Proof.
 move=> d ops m.
 have wfD : wf_mat m m (diag_mat d) = true by exact: wf_mk_mat.
 by have [wf1 e1] := apply_ops_inv ops wfD; split=> //; rewrite e1 det_diag_mat.
+Qed.
+
+(* ========================================================================================== *)
+(* 6. rank-deficient L: the gcd of the r x r minors of ops([diag d; 0])                        *)
+(* ========================================================================================== *)
+
+Lemma InE (T : eqType) (x : T) (l : seq T) : List.In x l <-> x \in l.
+Proof.
+elim: l => [|y l IH] //=; rewrite inE; split.
+  by case=> [->|/IH ->]; rewrite ?eqxx ?orbT.
+by case/orP => [/eqP ->|/IH]; [left|right].
+Qed.
+
+(* g divides the determinant of every choice of r rows of A (in any order, with repetitions) *)
+Definition DivRows m r (g : Z) (A : 'M[Z]_(m, r)) : Prop :=
+  forall f : 'I_r -> 'I_m, Z.divide g (\det (mxsub f id A)).
+
+(* it suffices to look at the increasing row selections: the minors enumerated by minors_gcd *)
+Lemma DivRowsP m r (L : mat) (g : Z) :
+  (forall rs, List.In rs (subseqs r (Base.iota 0 m)) ->
+     Z.divide g (det r (submat L rs (Base.iota 0 r)))) <->
+  DivRows g (mx_of m r L).
+Proof.
+have cE (h : 'I_r -> 'I_r) : h = id -> forall j, val (h j) = nth 0%N (Base.iota 0 r) j.
+  by move=> -> j; rewrite iotaE nth_iota.
+split=> [H f|H rs /subseqs_iota0_spec [sz [_ lt]]].
+- case: (not_inj_witness f) => [finj|[i1 [i2 [ne e]]]]; last first.
+    rewrite (determinant_alternate ne) => [|j]; first exact: Z.divide_0_r.
+    by rewrite !mxE e.
+  have [s [f' [finc fE]]] := inj_factor finj.
+  have -> : mxsub f id (mx_of m r L) = row_perm s (mxsub f' id (mx_of m r L)).
+    by apply/matrixP => i j; rewrite !mxE fE.
+  rewrite det_row_perm; apply: Z.divide_mul_r.
+  have mem : List.In (seq_of_map f') (subseqs r (Base.iota 0 m)).
+    apply/InE; rewrite iotaE.
+    have := @TuProofs.subseqs_complete (seq.iota 0 m) (seq_of_map f').
+    rewrite size_seq_of_map; apply.
+    by apply: sorted_subseq_iota; [exact: seq_of_map_sorted | exact: seq_of_map_lt].
+  have := H _ mem.
+  rewrite (@detE r) ?size_seq_of_map ?iotaE ?size_iota //.
+  have hf' i : val (f' i) = nth 0%N (seq_of_map f') i by rewrite nth_seq_of_map.
+  by rewrite -iotaE (mxsub_seqE L hf' (cE id (erefl _))).
+- move: lt; rewrite all_ltE => lt.
+  have [f hf] := idx_map sz lt.
+  rewrite (@detE r) ?iotaE ?size_iota // -iotaE (mxsub_seqE L hf (cE id (erefl _))).
+  exact: H.
+Qed.
+
+Definition radd_mx m r (i0 j0 : 'I_m) (c : Z) (A : 'M[Z]_(m, r)) : 'M[Z]_(m, r) :=
+  \matrix_(a, b) if a == i0 then A i0 b + c * A j0 b else A a b.
+
+Definition neg_mx m r (i0 : 'I_m) (A : 'M[Z]_(m, r)) : 'M[Z]_(m, r) :=
+  \matrix_(a, b) if a == i0 then - A i0 b else A a b.
+
+Lemma div_swap m r g (A : 'M[Z]_(m, r)) (s : 'S_m) : DivRows g A -> DivRows g (row_perm s A).
+Proof.
+move=> H f.
+have -> : mxsub f id (row_perm s A) = mxsub (s \o f) id A by apply/matrixP => i j; rewrite !mxE.
+exact: H.
+Qed.
+
+Lemma div_neg m r g (A : 'M[Z]_(m, r)) (i0 : 'I_m) : DivRows g A -> DivRows g (neg_mx i0 A).
+Proof.
+move=> H f.
+have -> : mxsub f id (neg_mx i0 A) =
+          diag_mx (\row_a (if f a == i0 then -1 else 1)) *m mxsub f id A.
+  apply/matrixP => a b; rewrite mul_diag_mx !mxE.
+  by case: eqP => [->|_]; rewrite ?mulN1r ?mul1r.
+by rewrite det_mulmx; apply: Z.divide_mul_r; exact: H.
+Qed.
+
+Lemma div_radd m r g (A : 'M[Z]_(m, r)) (i0 j0 : 'I_m) c :
+  DivRows g A -> DivRows g (radd_mx i0 j0 c A).
+Proof.
+move=> H f.
+case: (not_inj_witness f) => [finj|[i1 [i2 [ne e]]]]; last first.
+  rewrite (determinant_alternate ne) => [|j]; first exact: Z.divide_0_r.
+  by rewrite !mxE e.
+case: (pickP (fun p => f p == i0)) => [p /eqP fp|none]; last first.
+  have -> : mxsub f id (radd_mx i0 j0 c A) = mxsub f id A.
+    by apply/matrixP => a b; rewrite !mxE none.
+  exact: H.
+pose f' := fun a => if a == p then j0 else f a.
+rewrite (@determinant_multilinear _ _ _ (mxsub f id A) (mxsub f' id A) p 1 c).
+- by apply: Z.divide_add_r; apply: Z.divide_mul_r; exact: H.
+- by apply/rowP => b; rewrite !mxE fp eqxx /f' eqxx mul1r.
+- apply/matrixP => a b; rewrite !mxE -fp (eqtype.inj_eq finj).
+  by rewrite eq_sym (negbTE (neq_lift p a)).
+- apply/matrixP => a b; rewrite !mxE -fp (eqtype.inj_eq finj) /f'.
+  by rewrite eq_sym (negbTE (neq_lift p a)).
+Qed.
+
+Lemma radd_mxK m r (A : 'M[Z]_(m, r)) (i0 j0 : 'I_m) c : i0 != j0 ->
+  radd_mx i0 j0 (- c) (radd_mx i0 j0 c A) = A.
+Proof.
+rewrite eq_sym => ne; apply/matrixP => a b; rewrite !mxE eqxx (negbTE ne).
+by case: eqP => [->|//]; rewrite mulNr addrK.
+Qed.
+
+Lemma neg_mxK m r (A : 'M[Z]_(m, r)) (i0 : 'I_m) : neg_mx i0 (neg_mx i0 A) = A.
+Proof.
+by apply/matrixP => a b; rewrite !mxE eqxx; case: eqP => [->|//]; rewrite opprK.
+Qed.
+
+Lemma row_perm_tpermK m r (A : 'M[Z]_(m, r)) (i0 j0 : 'I_m) :
+  row_perm (tperm i0 j0) (row_perm (tperm i0 j0) A) = A.
+Proof. by apply/matrixP => a b; rewrite !mxE tpermK. Qed.
+
+(* every row operation acts on mx_of by a map that preserves the common divisors of the r x r minors *)
+Lemma apply_op_mx m r (L : mat) (o : rowop) : wf_mat m r L = true ->
+  wf_mat m r (apply_op m r L o) = true /\
+  forall g, DivRows g (mx_of m r (apply_op m r L o)) <-> DivRows g (mx_of m r L).
+Proof.
+move=> wfL; case: o => [i j c|i j|i] /=.
+- case: ifP => [/andP [/andP []]|_] //.
+  rewrite !ltbE eqbE => im jm ne; split; first exact: wf_mk_mat.
+  pose i0 := Ordinal im; pose j0 := Ordinal jm.
+  have ne0 : i0 != j0 by [].
+  have -> : mx_of m r (mk_mat m r (fun a b => if Nat.eqb a i then (get L i b + c * get L j b)%Z else get L a b)) =
+            radd_mx i0 j0 c (mx_of m r L).
+    rewrite mx_of_mk_mat; apply/matrixP => a b; rewrite !mxE eqbE.
+    by rewrite -[(a : nat) == i]/(a == i0).
+  move=> g; split; last exact: div_radd.
+  by move=> /(div_radd i0 j0 (- c)); rewrite radd_mxK.
+- case: ifP => [/andP []|_] //.
+  rewrite !ltbE => im jm; split; first exact: wf_mk_mat.
+  pose i0 := Ordinal im; pose j0 := Ordinal jm.
+  have -> : mx_of m r (mk_mat m r (fun a b => if Nat.eqb a i then get L j b
+                                             else if Nat.eqb a j then get L i b else get L a b)) =
+            row_perm (tperm i0 j0) (mx_of m r L).
+    rewrite mx_of_mk_mat; apply/matrixP => a b; rewrite !mxE !eqbE permE /=.
+    rewrite -[(a : nat) == i]/(a == i0) -[(a : nat) == j]/(a == j0).
+    by case: (a == i0); [|case: (a == j0)].
+  move=> g; split; last exact: div_swap.
+  by move=> /(div_swap (tperm i0 j0)); rewrite row_perm_tpermK.
+- case: ifP => [|_] //.
+  rewrite !ltbE => im; split; first exact: wf_mk_mat.
+  pose i0 := Ordinal im.
+  have -> : mx_of m r (mk_mat m r (fun a b => if Nat.eqb a i then (- get L i b)%Z else get L a b)) =
+            neg_mx i0 (mx_of m r L).
+    rewrite mx_of_mk_mat; apply/matrixP => a b; rewrite !mxE eqbE.
+    by rewrite -[(a : nat) == i]/(a == i0).
+  move=> g; split; last exact: div_neg.
+  by move=> /(div_neg i0); rewrite neg_mxK.
+Qed.
+
+Lemma wf_apply_op m r (L : mat) (o : rowop) :
+  wf_mat m r L = true -> wf_mat m r (apply_op m r L o) = true.
+Proof. by move=> wfL; have [] := apply_op_mx o wfL. Qed.
+
+Theorem minors_gcd_apply_op : forall (m r : nat) (L : mat) (o : rowop),
+  wf_mat m r L = true -> minors_gcd m r (apply_op m r L o) = minors_gcd m r L.
+Proof.
+move=> m r L o wfL; have [_ H] := apply_op_mx o wfL.
+rewrite /minors_gcd; apply: gcd_list_same_divisors => g Hg x /List.in_map_iff [rs [<- mem]].
+- have /DivRowsP : DivRows g (mx_of m r L); last by apply.
+  apply/H/DivRowsP => rs' mem'; apply: Hg; apply/List.in_map_iff.
+  by exists rs'.
+- have /DivRowsP : DivRows g (mx_of m r (apply_op m r L o)); last by apply.
+  apply/H/DivRowsP => rs' mem'; apply: Hg; apply/List.in_map_iff.
+  by exists rs'.
+Qed.
+
+Lemma minors_gcd_apply_ops m r (ops : list rowop) (L : mat) : wf_mat m r L = true ->
+  wf_mat m r (fold_left (apply_op m r) ops L) = true /\
+  minors_gcd m r (fold_left (apply_op m r) ops L) = minors_gcd m r L.
+Proof.
+elim: ops L => [|o ops IH] L wfL //=.
+have wf1 := wf_apply_op o wfL.
+by have [wf2 e2] := IH _ wf1; split=> //; rewrite e2 minors_gcd_apply_op.
+Qed.
+
+(* [diag d; 0]: every selection of r rows has a determinant divisible by prod d; the first r rows give prod d *)
+Lemma stack_diag_factor m (d : list Z) (f : 'I_(length d) -> 'I_m) :
+  mxsub f id (mx_of m (length d) (stack_diag m d)) =
+  (\matrix_(a < length d, b < length d) ((f a : nat) == b)%:R) *m
+  diag_mx (\row_(b < length d) nthZ d b).
+Proof.
+apply/matrixP => a b; rewrite mul_mx_diag !mxE get_mk_mat; [|exact/ltP|exact/ltP].
+by rewrite eqbE; case: eqP => [->|_]; rewrite ?mul1r ?mul0r.
+Qed.
+
+Lemma det_diag_row (d : list Z) :
+  \det (diag_mx (\row_(b < length d) nthZ d b)) = fold_right Z.mul 1%Z d.
+Proof. by rewrite det_diag prodE; apply: eq_bigr => i _; rewrite mxE. Qed.
+
+Theorem minors_gcd_stack_diag : forall (m : nat) (d : list Z),
+  (length d <= m)%coq_nat ->
+  minors_gcd m (length d) (stack_diag m d) = Z.abs (fold_right Z.mul 1%Z d).
+Proof.
+move=> m d /leP le; set r := length d; set p := fold_right _ _ _.
+have div : DivRows p (mx_of m r (stack_diag m d)).
+  move=> f; rewrite stack_diag_factor det_mulmx det_diag_row.
+  exact: Z.divide_factor_r.
+have top : det r (submat (stack_diag m d) (Base.iota 0 r) (Base.iota 0 r)) = p.
+  rewrite (@detE r) ?iotaE ?size_iota //.
+  have -> : \matrix_(i < r, j < r) get (stack_diag m d) (nth 0%N (seq.iota 0 r) i) (nth 0%N (seq.iota 0 r) j) =
+            diag_mx (\row_(b < r) nthZ d b).
+    apply/matrixP => i j; rewrite !mxE !nth_iota // !add0n get_mk_mat; first last.
+    - exact/ltP.
+    - by apply/ltP; apply: leq_trans le.
+    rewrite eqbE -[(i : nat) == j]/(i == j).
+    by case: (i == j); rewrite ?mulr1n ?mulr0n.
+  exact: det_diag_row.
+rewrite /minors_gcd; apply: gcd_list_generator.
+- apply/List.in_map_iff; exists (Base.iota 0 r); split=> //.
+  apply/InE; rewrite iotaE.
+  have := @TuProofs.subseqs_complete (seq.iota 0 m) (seq.iota 0 r).
+  rewrite size_iota; apply.
+  have -> : seq.iota 0 m = seq.iota 0 r ++ seq.iota r (m - r) by rewrite -iotaD subnKC.
+  exact: prefix_subseq.
+- by move=> y /List.in_map_iff [rs [<- mem]]; move/DivRowsP: div; apply.
+Qed.
+
+Theorem minors_gcd_cert_L : forall (m : nat) (d : list Z) (ops : list rowop),
+  (length d <= m)%coq_nat ->
+  wf_mat m (length d) (cert_L m d ops) = true /\
+  minors_gcd m (length d) (cert_L m d ops) = Z.abs (fold_right Z.mul 1%Z d).
+Proof.
+move=> m d ops le; rewrite /cert_L.
+have wfD : wf_mat m (length d) (stack_diag m d) = true by exact: wf_mk_mat.
+have [wf1 e1] := minors_gcd_apply_ops ops wfD.
+by split=> //; rewrite e1 minors_gcd_stack_diag.
 Qed.
 
 (* for use from files that do not load ssreflect: all arguments explicit *)
@@ -291,6 +516,9 @@ Arguments equimodular_construct : clear implicits.
 Arguments equimodular_construct_b : clear implicits.
 Arguments minors_gcd_square : clear implicits.
 Arguments det_apply_ops : clear implicits.
+Arguments minors_gcd_apply_op : clear implicits.
+Arguments minors_gcd_stack_diag : clear implicits.
+Arguments minors_gcd_cert_L : clear implicits.
 
 Print Assumptions equimodular_unique'.
 Print Assumptions equimodular_unique.
@@ -299,3 +527,6 @@ Print Assumptions equimodular_construct.
 Print Assumptions equimodular_construct_b.
 Print Assumptions minors_gcd_square.
 Print Assumptions det_apply_ops.
+Print Assumptions minors_gcd_apply_op.
+Print Assumptions minors_gcd_stack_diag.
+Print Assumptions minors_gcd_cert_L.
